@@ -6,6 +6,8 @@
 (* (Lex, then Classify).                                                   *)
 (*   Family "words":   the string w is a word; sources  w,  w-w,  w+w,     *)
 (*                     a-w,  we-3,  w 1  (juxtaposition)                   *)
+(*   Family "raw":     the string is the source text itself (blanks at     *)
+(*                     either end, lone & and |, stray quotes, comments)   *)
 (*   Family "strings": the string t is a string body; sources  quote(t)    *)
 (*                     (escaped: denotes exactly t) and "t" (raw: may be   *)
 (*                     malformed)                                          *)
@@ -19,7 +21,8 @@ VARIABLE s
 
 WordChars == {48, 49, 57, 97, 101, 69, 120, 102, 46, 95}                 \* 0 1 9 a e E x f . _
 BodyChars == {97, QUOTE, BSL, 47, 42, NL, 32, 43, 228, 128512}            \* a " \ / * newline space + a-umlaut emoji
-Alphabet == IF Family = "words" THEN WordChars ELSE BodyChars
+RawChars == {97, 38, 124, QUOTE, BSL, 32, 49, 43, 47, 42}                  \* a & | " \ space 1 + / *  : raw source text
+Alphabet == CASE Family = "words" -> WordChars [] Family = "raw" -> RawChars [] OTHER -> BodyChars
 \* words the small alphabet cannot spell: the RustFloatWord deviation, the i64 boundary, letter case, extreme exponents
 SpecialWords == {<<105, 110, 102>>,
                  <<73, 110, 102>>,
@@ -62,7 +65,8 @@ Init == s = <<>>
 Next == Len(s) < MaxLen /\ \E c \in Alphabet : s' = Append(s, c)
 
 SourcesOf(w) ==
-  IF Family = "words"
+  IF Family = "raw" THEN {w}            \* the string itself is the source: leading / trailing blanks, lone & and |, stray quotes
+  ELSE IF Family = "words"
   THEN {w, w \o <<45>> \o w, w \o <<43>> \o w, <<97, 45>> \o w, w \o <<101, 45, 51>>, w \o <<32, 49>>, <<48, 120>> \o w}
   ELSE {QuoteText(w), <<QUOTE>> \o w \o <<QUOTE>>, <<120, 32, 61, 32>> \o QuoteText(w) \o <<59, 32, 120>>}
 Sources == SourcesOf(s)
